@@ -235,3 +235,75 @@ def mutate(rng, b):
         if i + 1 < len(b):
             b[i + 1] = j & 0xFF
     return bytes(b)
+
+
+# --------------------------------------------------------------------------- parsing (for the
+# projections of simulated-daemon traces; lenient, never raises on malformed input)
+
+def _read_name(d, off, depth=0):
+    labels = []
+    end = None
+    seen = 0
+    while True:
+        if off >= len(d) or seen > 200:
+            return None, None
+        l = d[off]
+        if l == 0:
+            if end is None:
+                end = off + 1
+            return labels, end
+        if l & 0xC0 == 0xC0:
+            if off + 1 >= len(d):
+                return None, None
+            if end is None:
+                end = off + 2
+            off = ((l & 0x3F) << 8) | d[off + 1]
+            seen += 1
+            continue
+        if l & 0xC0:
+            return None, None
+        labels.append(bytes(d[off + 1:off + 1 + l]))
+        off += 1 + l
+        seen += 1
+
+
+def parse_packet(d):
+    """Returns {'id','flags','q':[(labels,type,class)], 'an':[rr], 'ns':[rr], 'ar':[rr]} with
+    rr = {'name':labels,'type','class','flush','ttl','rdata':bytes,'target':labels|None,
+          'srv':(prio,weight,port)|None}; None if the packet does not parse."""
+    if len(d) < 12:
+        return None
+    ident, flags, nq, na, nn, nr = struct.unpack(">HHHHHH", d[:12])
+    off = 12
+    out = {"id": ident, "flags": flags, "q": [], "an": [], "ns": [], "ar": []}
+    for _ in range(nq):
+        name, off = _read_name(d, off)
+        if name is None or off + 4 > len(d):
+            return None
+        ty, cl = struct.unpack(">HH", d[off:off + 4])
+        off += 4
+        out["q"].append((name, ty, cl))
+    for sec, cnt in (("an", na), ("ns", nn), ("ar", nr)):
+        for _ in range(cnt):
+            name, off = _read_name(d, off)
+            if name is None or off + 10 > len(d):
+                return None
+            ty, cl, ttl, rdlen = struct.unpack(">HHIH", d[off:off + 10])
+            off += 10
+            if off + rdlen > len(d):
+                return None
+            rr = {"name": name, "type": ty, "class": cl & 0x7FFF, "flush": bool(cl & 0x8000), "ttl": ttl,
+                  "rdata": bytes(d[off:off + rdlen]), "target": None, "srv": None}
+            if ty in (12, 5):
+                rr["target"], _ = _read_name(d, off)
+            elif ty == 33 and rdlen >= 7:
+                rr["srv"] = struct.unpack(">HHH", d[off:off + 6])
+                rr["target"], _ = _read_name(d, off + 6)
+            off += rdlen
+            out[sec].append(rr)
+    return out
+
+
+def dotted(labels):
+    """Presentation used by the crate's decoder: labels joined with '.', trailing '.', no escaping."""
+    return b"".join(l + b"." for l in labels)
